@@ -27,6 +27,10 @@ static int shape_build(const char *name, int vk, tmat_t *T) {
     else if (!strcmp(name, "two6")) { n = 6; int par[6] = { 2, 2, 6, 5, 5, 6 }; for (int i = 0; i < 6; i++) { pat[i][i] = 1; if (par[i] < 6) pat[i][par[i]] = pat[par[i]][i] = 1; } }
     else if (!strcmp(name, "two8")) { n = 8; int par[8] = { 1, 2, 3, 8, 5, 6, 7, 8 }; for (int i = 0; i < 8; i++) { pat[i][i] = 1; if (par[i] < 8) pat[i][par[i]] = pat[par[i]][i] = 1; } }
     else if (!strcmp(name, "relax6")) { n = 6; /* two bushy leaf subtrees {0,1,2} {3,4} under root 5 */ int par[6] = { 2, 2, 5, 4, 5, 6 }; for (int i = 0; i < 6; i++) { pat[i][i] = 1; if (par[i] < 6) pat[i][par[i]] = pat[par[i]][i] = 1; } pat[0][5] = 1; }
+    else if (!strcmp(name, "bush7")) { n = 7; /* K5b (added after seeded change C03-4 was missed): column etree {0,1}->2->3->4->5->6; with relax 3 the relaxed supernode {0,1,2} is a
+                                                  BRANCHING subtree (contiguous columns, not an etree path); columns 3..6 are full, so the pipelined panels 4,5,6 have
+                                                  entries in the pivot rows of the off-path column 1 */
+        for (int i = 0; i < 7; i++) for (int j = 0; j < 7; j++) pat[i][j] = j == 0 ? (i == 0 || i == 2) : j == 1 ? (i == 1 || i == 3) : j == 2 ? (i >= 2) : 1; }
     else if (!strncmp(name, "forest:", 7)) {          /* I + sum e_j e_parent(j)^T ; parent digits, 'r' or digit n = root */
         const char *p = name + 7; n = (int)strlen(p); if (n > NMAX) return 0;
         for (int j = 0; j < n; j++) { pat[j][j] = 1; int par = (p[j] >= '0' && p[j] <= '9') ? p[j] - '0' : (p[j] >= 'a' && p[j] <= 'c') ? 10 + p[j] - 'a' : n; if (par < n && par > j) pat[j][par] = 1; }
